@@ -271,11 +271,11 @@ def grus() -> list[Entry]:
                            "chw", in_ch=4, min_hw=(lambda h, w: h * w >= 2) if inorm else any_ok,
                            tags=("gru",) + (("normalized",) if norm else ()) + (("instance_norm",) if inorm else ())))
     from direct.nn.recurrent.recurrent import Conv2dGRU as _G
-    for layers, cls in ((1, "wrong-shape"), (2, "raises")):
+    for layers in (1, 2, 3):
         E.append(Entry(f"Conv2dGRU/zeropad-L{layers}", "recurrent", "gru",
                        lambda layers=layers: _G(in_channels=4, hidden_channels=4, out_channels=2, num_layers=layers,
                                                 replication_padding=False),
-                       "chw", in_ch=4, min_hw=lambda h, w: h >= 3 and w >= 3, tags=("gru", "zeropad"), finding="gru-zero-padding"))
+                       "chw", in_ch=4, min_hw=any_ok, tags=("gru", "zeropad")))
     return E
 
 
@@ -298,7 +298,9 @@ def recons() -> list[Entry]:
     fwd, bwd = _ops()
     E: list[Entry] = []
     u2 = unet_ok(2)
-    nu = normunet_ok(2)
+    # inside a network the normalised U-Net sees intermediate images; with fewer than 9 pixels the tiny-width zoo models can
+    # produce a constant (dead-ReLU) image, whose std is 0 — a degenerate input for every (x - mean) / std
+    nu = both(normunet_ok(2), lambda h, w: h * w >= 9)
     # ---- Unet2d
     for normalized in (False, True):
         for init in ("sense", "zero_filled"):
@@ -330,9 +332,9 @@ def recons() -> list[Entry]:
                        "chw", _c_rim, min_hw=nu if nm in ("instnorm", "normalized") else any_ok,
                        tags=("gru",) + ((nm,) if nm != "default" else ())))
     E.append(Entry("RIM/noskip", "rim", "recon", lambda: RIM(fwd, bwd, hidden_channels=4, length=2, depth=1, skip_connections=False),
-                   "chw", _c_rim, min_hw=lambda h, w: h >= 2 and w >= 2, tags=("gru", "noskip"), finding="eval-set_-alias"))
+                   "chw", _c_rim, tags=("gru", "noskip")))
     E.append(Entry("RIM/zeropad", "rim", "recon", lambda: RIM(fwd, bwd, hidden_channels=4, length=2, depth=1, replication_padding=False),
-                   "chw", _c_rim, min_hw=lambda h, w: h >= 5 and w >= 5, tags=("gru", "zeropad"), finding="gru-zero-padding"))
+                   "chw", _c_rim, tags=("gru", "zeropad")))
     E.append(Entry("RIM/scaled-loglikelihood", "rim", "recon", lambda: RIM(fwd, bwd, hidden_channels=4, length=2, depth=1),
                    "chw", _c_rim_scaled, tags=("gru", "scaling_factor")))
     # ---- LPDNet
@@ -360,7 +362,7 @@ def recons() -> list[Entry]:
                        "image", _c_kms, min_hw=ok, tags=("mwcnn",) + (("batchnorm",) if nm.endswith("bn") else ())))
     E.append(Entry("XPDNet/normalize", "xpdnet", "recon",
                    lambda: XPDNet(fwd, bwd, num_primal=2, num_dual=1, num_iter=2, normalize=True, **xkw),
-                   "image", _c_kms_scaled, min_hw=mwcnn_ok(2), tags=("mwcnn", "scaling_factor"), finding="scaling-broadcast"))
+                   "image", _c_kms_scaled, min_hw=mwcnn_ok(2), tags=("mwcnn", "scaling_factor")))
     # ---- KIKINet
     kkw = dict(image_mwcnn_hidden_channels=2, image_mwcnn_num_scales=2, image_unet_num_filters=2, image_unet_num_pool_layers=2,
                kspace_conv_hidden_channels=4, kspace_conv_n_convs=2, kspace_didn_hidden_channels=4, kspace_didn_num_dubs=2,
